@@ -619,6 +619,7 @@ def interleavings(n0, n1):
 
 class C19:
     ID = "C19"
+    GEN_TIE = ["config"]     # definitions regenerated from physt/config.py (harness/gen_tie.py)
     N_QUICK = 220
     N_THOROUGH = 3600
     N_SEARCH = 150
